@@ -144,6 +144,10 @@ def corpus():
     C = gram.ClassSpec
     out = []
     for expansion in (True, False):
+        # concrete recursive start symbol (tree crossover grafts donor subtrees of the start type), one production switched off
+        out.append(gram.Spec([C("Expr", True, None), C("Lit", False, 0, [("v", ("ann", "int", ("intRange", 0, 9)))]),
+                              C("Add", False, 0, [("l", ("cls", 0)), ("r", ("cls", 0))]), C("Mul", False, 0, [("l", ("cls", 0)), ("r", ("cls", 0))], weight=0),
+                              C("Neg", False, 0, [("e", ("cls", 0))], weight=3)], 2, [1, 2, 3, 4], expansion))
         out.append(gram.Spec([C("Expr", True, None), C("Atom", True, 0), C("Const", True, 1), C("Lit", False, 2, [("v", ("ann", "int", ("intRange", 0, 9)))]),
                               C("Neg", False, 0, [("arg", ("cls", 0))]), C("Seq", False, 0, [("xs", ("list", ("cls", 0)))]),
                               C("Pair", False, 1, [("p", ("tuple", ("cls", 0), ("cls", 2)))]),
@@ -188,8 +192,9 @@ def exercise(h: Harness, spec, rng):
                 continue
             for name, x in (("mutate", m), ("crossover", c1), ("crossover", c2)):
                 check_labels(h, f"TreeBasedRepresentation.{name}", spec, b, x)
-            # the parent must still be correctly labelled afterwards
+            # the parents (both served as donors of crossover material) must still be correctly labelled afterwards
             check_labels(h, "parent-after-variation", spec, b, v)
+            check_labels(h, "parent-after-variation", spec, b, m)
 
 
 def run(h: Harness):
@@ -199,9 +204,21 @@ def run(h: Harness):
         for _ in range(h.n(4, 20)):
             exercise(h, spec, rng)
         h.count("corpus-grammars")
-    for _ in range(h.n(150, 3000)):
+    for gi in range(h.n(150, 3000)):
         # a third of the grammars count depth by grammar expansion (extract_grammar(..., expansion_depthing=True))
         expansion = rng.random() < 0.33
         spec = gram.productive_spec(rng, max_classes=rng.choice([3, 4, 6]), opts={"float": False}, expansion=expansion)
         h.count("depth-mode:expansion" if expansion else "depth-mode:nodes")
+        if gi % 4 == 1 and gram.concrete_recursive_start(spec, rng):
+            h.count("concrete-recursive-start")       # tree crossover then finds donor subtrees of the start type
+        if gi % 3 == 2:
+            # some productions are switched off (weight 0) or weighted: deciders that ignore weights still build them
+            for c in spec.classes:
+                if not c.abstract and c.parent is not None and rng.random() < 0.4:
+                    c.weight = rng.choice([0, 0, 2, 0.5])
+            for a in range(len(spec.classes)):
+                kids = [c for c in spec.classes if c.parent == a]
+                if kids and all(c.weight is not None and c.weight == 0 for c in kids):
+                    kids[0].weight = 1
+            h.count("weighted-grammar")
         exercise(h, spec, rng)
